@@ -120,13 +120,14 @@ NestedRef(b, def, tag, all) ==
   ELSE IF ~HasNested(def, t) THEN [class |-> "undeclared", bufs |-> <<>>]     \* not-defined or nesting-not-defined
   ELSE LET occ == Occs(b, t) IN
        IF occ = <<>> THEN [class |-> "notfound", bufs |-> <<>>]
-       ELSE IF occ[1].wt # 2 THEN [class |-> IF all THEN "may" ELSE "mismatch", bufs |-> <<>>]
+       ELSE IF occ[1].wt # 2 THEN [class |-> "mismatch", bufs |-> <<>>]     \* NestedResult and NestedResults alike
        ELSE [class |-> "val", bufs |-> IF all THEN [i \in 1..Len(occ) |-> occ[i].pay] ELSE <<occ[Len(occ)].pay>>]
 
 \* FieldData(path...) followed by accessor acc: walk the nested definitions along the path
 RECURSIVE PathRef(_, _, _, _)
 PathRef(b, def, path, acc) ==
-  IF Len(path) = 1 THEN AccRef(b, def, acc, path[1])
+  IF Len(path) = 0 THEN ErrC("anyerr")          \* FieldData() needs at least one tag
+  ELSE IF Len(path) = 1 THEN AccRef(b, def, acc, path[1])
   ELSE LET n == NestedRef(b, def, path[1], FALSE) IN
        IF n.class # "val" THEN ErrC(n.class)
        ELSE LET nb == n.bufs[1]
